@@ -828,7 +828,8 @@ fn env_in_token(token: &str) -> bool {
 /// `quoted`: the word was written in double quotes.
 fn env_in_word(token: &str, quoted: bool) -> bool {
     if libs::re::re_contains(token, r"\$\{?[\$\?]\}?") {
-        return true;
+        // (not inside the single-quoted value of an assignment, see below)
+        return quoted || !libs::re::re_contains(token, r"='.*\$\{?[\$\?]\}?.*'$");
     }
 
     let ptn_env_name = r"[a-zA-Z_][a-zA-Z0-9_]*";
